@@ -75,6 +75,14 @@ pub fn one_case(rep: &Report, idx: usize, case: &CCase, inj: &Injection, reader_
             buffered: if reader_sel & 8 != 0 { Some(1 + (reader_sel >> 8) as usize % 9) } else { None },
             ..Default::default()
         };
+        // A quarter of the clones replace an existing file (--force-create), smaller or
+        // larger than the source: the result must still have exactly the source's length.
+        if reader_sel & 0xc0 == 0xc0 {
+            let junk_len = if reader_sel & 0x100 != 0 { source.len() * 2 + 1 + (reader_sel >> 20) as usize % 5000 } else { source.len() / 3 };
+            std::fs::write(&out_path, Rng::new(reader_sel).bytes(junk_len)).map_err(|e| e.to_string())?;
+            spec.force = true;
+            rep.count("clones_over_existing_file(--force-create)", 1);
+        }
         let server;
         let who;
         if reader_sel & 1 == 0 {
